@@ -421,6 +421,19 @@ Proof.
   apply rmatch_spec. eapply rrepr_perm; eassumption.
 Qed.
 
+(* the same rule set inserted in any order answers alike *)
+Theorem build_match_any_order rs rs' q : Forall ok_route rs -> NoDup (ids rs) -> Permutation rs rs' ->
+  Permutation (rmatch q (rbuild lower eng valid ic_host ic_path always rs)) (rmatch q (rbuild lower eng valid ic_host ic_path always rs')).
+Proof.
+  intros Hok Hnd Hperm.
+  assert (Hok' : Forall ok_route rs') by (eapply Permutation_Forall; eassumption).
+  assert (Hnd' : NoDup (ids rs')) by (eapply Permutation_NoDup; [apply Permutation_map; exact Hperm|exact Hnd]).
+  destruct (build_hist_ok rs [] Hok Hnd (fun _ _ H => H)) as [H1 H2]. cbn [app] in H2.
+  pose proof (rrun_refines _ rnew [] rrepr_new H1) as HR.
+  eapply Permutation_trans; [unfold rbuild; apply (rmatch_spec _ rs'); eapply rrepr_perm; [exact HR|eapply Permutation_trans; eassumption]|].
+  apply Permutation_sym, build_match; assumption.
+Qed.
+
 (* incremental = rebuilt from the live set *)
 Theorem hist_match_rebuild ops q : hist_ok [] ops -> Forall ok_route (live ops) ->
   Permutation (rmatch q (rrun' ops rnew)) (rmatch q (rbuild lower eng valid ic_host ic_path always (live ops))).
